@@ -155,8 +155,10 @@ func (r *Reader) Read() (Frame, error) {
 
 		// in UDP, packet order is not guaranteed. Therefore, we accept frames
 		// with a timestamp within 10 seconds with respect to the previous
+		// (compare by addition: the subtraction underflows when the newest
+		// accepted timestamp is lower than the window)
 		if r.curReadSignatureTime > 0 &&
-			ff.SignatureTimestamp < (r.curReadSignatureTime-(10*100000)) {
+			(ff.SignatureTimestamp+(10*100000)) < r.curReadSignatureTime {
 			return nil, newError("signature timestamp is too old")
 		}
 
